@@ -64,15 +64,19 @@ def dispatchState (tgt : Option FullTarget) (op : String) (args : List Sexp) : O
   | "target.tcpclose", some t => (some (Tgt.tcpClosed t), "ok")
   | _, _ => (tgt, dispatch op args)
 
-/-- process state: the interactive reference target and the Lean-side LogixDriver session -/
+/-- process state: the interactive reference target, the Lean-side LogixDriver session and the Lean-side SLCDriver session -/
 structure PState where
   tgt : Option FullTarget := none
   ld : Option LdSession := none
+  sd : Option SdSession := none
 
 def dispatchAll (st : PState) (op : String) (args : List Sexp) : PState × String :=
   if op.startsWith "ld." then
     let (ld', out) := dispatchLd st.ld op args
     ({ st with ld := ld' }, out)
+  else if op.startsWith "sd." then
+    let (sd', out) := dispatchSd st.sd op args
+    ({ st with sd := sd' }, out)
   else
     let (tgt', out) := dispatchState st.tgt op args
     ({ st with tgt := tgt' }, out)
